@@ -721,6 +721,84 @@ func sortJSONCase(k *c38) {
 	}
 }
 
+// wireMutationCase: bytes that are *almost* a valid transaction (one byte changed, zeroed, or a truncation)
+// must be rejected or decoded without a panic, and whatever decodes must be stable: encoding the decoded
+// transaction and decoding it again gives the same value.
+func wireMutationCase(k *c38) {
+	rt, c := k.rt, k.c
+	tx := gen.AnyStdTx().Draw(rt, "tx")
+	h := rapid.SampledFrom([]int64{-1, 0, 30024, 1 << 40}).Draw(rt, "height")
+	era := k.cfg.protoEra(h)
+	if !era && !gen.AminoBinaryEncodable(tx.Kind) {
+		return // no legacy binary form of this message kind
+	}
+	c.Opf("wire mutation of StdTx %s at height %d (%s)", gen.Canon(tx.StdTx), h, eraName(era))
+	bz, err := authTypes.DefaultTxEncoder(k.cdc)(tx.StdTx, h)
+	if err != nil {
+		return
+	}
+	decoded := 0
+	for i := 0; i < 8; i++ {
+		m := append([]byte{}, bz...)
+		var how string
+		switch rapid.IntRange(0, 2).Draw(rt, "mutKind") {
+		case 0:
+			p := rapid.IntRange(0, len(m)-1).Draw(rt, "pos")
+			x := byte(rapid.IntRange(1, 255).Draw(rt, "xor"))
+			m[p] ^= x
+			how = fmt.Sprintf("byte %d ^= %02x", p, x)
+		case 1:
+			n := rapid.IntRange(0, len(m)-1).Draw(rt, "cut")
+			m = m[:n]
+			how = fmt.Sprintf("truncated to %d of %d bytes", n, len(bz))
+		default:
+			p := rapid.IntRange(0, len(m)-1).Draw(rt, "pos")
+			m[p] = 0
+			how = fmt.Sprintf("byte %d = 0", p)
+		}
+		c.Opf("%s", how)
+		c.AddExtra("wire_mutations", 1)
+		var d sdk.Tx
+		var derr sdk.Error
+		if p := catch(func() { d, derr = authTypes.DefaultTxDecoder(k.cdc)(m, h) }); p != nil {
+			c.Violation("C38/StdTx/"+eraName(era)+"/decoder-panics-on-corrupt-bytes", "DefaultTxDecoder panics (%v) at height %d on a %s transaction with %s: %x", p, h, tx.Kind, how, m)
+			continue
+		}
+		if derr != nil {
+			continue
+		}
+		st, ok := d.(authTypes.StdTx)
+		if !ok || st.Msg == nil || st.Signature.PublicKey == nil {
+			continue // nothing the Go encoder accepts
+		}
+		decoded++
+		var bz2 []byte
+		var eerr error
+		if p := catch(func() { bz2, eerr = authTypes.DefaultTxEncoder(k.cdc)(st, h) }); p != nil || eerr != nil {
+			continue // values the encoder refuses are outside the round-trip domain
+		}
+		var d2 sdk.Tx
+		var derr2 sdk.Error
+		if p := catch(func() { d2, derr2 = authTypes.DefaultTxDecoder(k.cdc)(bz2, h) }); p != nil || derr2 != nil {
+			c.Violation("C38/StdTx/"+eraName(era)+"/corrupt-bytes-decode-unstable", "a transaction decoded from corrupt bytes (%s) re-encodes to bytes the decoder rejects: panic=%v err=%v; value %s", how, p, derr2, gen.Canon(st))
+			continue
+		}
+		if g, w := gen.Canon(d2), gen.Canon(st); g != w {
+			c.Violation("C38/StdTx/"+eraName(era)+"/corrupt-bytes-decode-unstable", "a transaction decoded from corrupt bytes (%s) changes across encode/decode\n first  %s\n second %s", how, w, g)
+		}
+	}
+	if decoded > 0 {
+		c.NonTrivial()
+		c.Label("corrupt-bytes-decoded")
+	}
+}
+
+func catch(f func()) (p any) {
+	defer func() { p = recover() }()
+	f()
+	return nil
+}
+
 func c38Classes() []objClass {
 	var cs []objClass
 	for _, kind := range gen.MsgKinds() {
@@ -791,6 +869,7 @@ func c38Classes() []objClass {
 			return &p, false
 		})},
 		objClass{"SortJSON", sortJSONCase},
+		objClass{"WireMutation", wireMutationCase},
 	)
 	return cs
 }
@@ -860,11 +939,11 @@ func TestC38(t *testing.T) {
 	harness.Check(t, "C38",
 		"one object per case, class drawn uniformly from: a signed StdTx (single-key or multisig signer) around each of the 16 message kinds of x/nodes, x/apps, x/gov, x/pocketcore "+
 			"(through codec length-prefixed encoding, DefaultTxEncoder/DefaultTxDecoder, JSON, GetSignBytes and StdSignBytes), BaseAccount, ModuleAccount, Validator, LegacyValidator, "+
-			"Application, stored MsgClaim, ValidatorSigningInfo, Supply, Evidence (cache/legacy/codec forms), the Params of the five modules (JSON + per-parameter Subspace form) and raw SortJSON inputs. "+
+			"Application, stored MsgClaim, ValidatorSigningInfo, Supply, Evidence (cache/legacy/codec forms), the Params of the five modules (JSON + per-parameter Subspace form), raw SortJSON inputs, and corrupted transaction bytes (8 one-byte/truncation mutations: no decoder panic, decoded values stable). "+
 			"Each binary round trip runs at two heights drawn around the codec switch under generated process globals (UpgradeHeight/OldUpgradeHeight/TestMode/NCUST/override), with an independent "+
 			"restatement of which codec the height must select. Oracle: codec-independent structural rendering (nil==empty) of decode(encode(x)) equals that of x; encode(decode(encode(x)))==encode(x); "+
 			"sign bytes canonical (sorted keys, compact), invariant under map insertion order and JSON member order, sensitive to a single-field change. "+
-			"non-trivial = the value carries an interface-typed field (Any message, public key, proof leaf) or a non-empty map, or (SortJSON) two different renderings of one JSON value",
+			"non-trivial = the value carries an interface-typed field (Any message, public key, proof leaf) or a non-empty map, or (SortJSON) two different renderings of one JSON value, or (corrupt bytes) at least one mutation still decoded",
 		map[string]float64{"codec:amino": 0.2, "codec:proto": 0.4, "codec:json": 0.8, "interface-field": 0.4, "nonempty-map": 0.03, "multisig-pubkey": 0.08,
 			"nil-pubkey": 0.004, "nil-sig-pubkey": 0.05, "boundary-height": 0.15, "json-members-permuted": 0.5, "legacy-state-read-at-switch": 0.05, "max-amount": 0.01, "sortjson-permuted": 0.02},
 		func(rt *rapid.T, c *harness.Case) {
